@@ -8,9 +8,11 @@
      prec0_contract t x     format!("{:.0}", x) of an integral x: [-] and its exact integer
      parse_contract sp      str::parse::<f64> is correctly rounded on plain decimal texts
    [vb] = SpecFloat.valid_binary 53 1024: x is a genuine binary64 datum. *)
+From Coq Require Import Reals.
+From Flocq Require Import Core.Core IEEE754.BinarySingleNaN.
 From Coq Require Import ZArith Floats.SpecFloat Bool List String Ascii.
 Require Import Blots.Num Blots.Outcome Blots.gen.Builtins Blots.Ast Blots.NumText.
-Require Import Blots.proofs.NumText Blots.proofs.NumTextStr Blots.proofs.NumTextFloat Blots.proofs.NumTextRT.
+Require Import Blots.proofs.NumText Blots.proofs.NumTextStr Blots.proofs.NumTextFloat Blots.proofs.NumTextRT Blots.proofs.NumTextRef.
 Import ListNotations.
 Open Scope string_scope.
 Open Scope Z_scope.
@@ -187,6 +189,34 @@ Proof. exact rn_decimal_sign. Qed.
 Check C16_rn_decimal_sign : forall s m e,
   0 <= m -> rn_decimal s m e = with_sign s (rn_decimal false m e).
 Print Assumptions C16_rn_decimal_sign.
+
+(* ------------------------------------------------------------------ the reference is IEEE RNE *)
+(* rn_decimal (the reference every text->double conversion is compared with, and the value the
+   theorems above speak about) is Flocq's round-to-nearest-even of the rational m * 10^e in the
+   binary64 format (FLT_exp -1074 53), overflowing to the infinity of the same sign at 2^1024;
+   unbounded in m and e (the two shortcuts for astronomically large/small exponents included) *)
+Theorem C16_rn_decimal_correct : forall s m e,
+  let v := dec_R (Zpos m) e in
+  let z := rn_decimal s (Zpos m) e in
+  valid_binary 53 1024 z = true /\
+  if Rlt_bool (Rabs (rne v)) (bpow radix2 1024)
+  then SF2R radix2 z = (if s then - rne v else rne v)%R /\ is_finite_SF z = true /\ sign_SF z = s
+  else z = S754_infinity s.
+Proof. exact rn_decimal_correct. Qed.
+Check C16_rn_decimal_correct : forall s m e,
+  let v := dec_R (Zpos m) e in
+  let z := rn_decimal s (Zpos m) e in
+  valid_binary 53 1024 z = true /\
+  if Rlt_bool (Rabs (rne v)) (bpow radix2 1024)
+  then SF2R radix2 z = (if s then - rne v else rne v)%R /\ is_finite_SF z = true /\ sign_SF z = s
+  else z = S754_infinity s.
+Print Assumptions C16_rn_decimal_correct.
+
+(* the value of a radix literal, num_of_Z v, is RNE of the integer v *)
+Theorem C16_radix_value_is_rne : forall p, is_rounding_pos (num_of_Z (Zpos p)) (IZR (Zpos p)).
+Proof. exact num_of_Z_correct. Qed.
+Check C16_radix_value_is_rne : forall p, is_rounding_pos (num_of_Z (Zpos p)) (IZR (Zpos p)).
+Print Assumptions C16_radix_value_is_rne.
 
 (* ------------------------------------------------------------------ the hypotheses are satisfiable *)
 Example parse_contract_satisfiable : parse_contract ref_str_parse.
